@@ -563,7 +563,7 @@ fn main() {
     writeln!(v, "   own_res   : (type id, field, associated type of the Service trait held by value) *)").unwrap();
     writeln!(v, "From Coq Require Import List String.").unwrap();
     writeln!(v, "Import ListNotations.").unwrap();
-    writeln!(v, "Open Scope string_scope.").unwrap();
+    writeln!(v, "Local Open Scope string_scope.").unwrap();
     writeln!(v, "Inductive ekind := Counted | Owned | Borrow | StaticRef.").unwrap();
     writeln!(v, "Definition own_types : list (nat * string * bool * bool) := [").unwrap();
     for (i, n) in b.nodes.iter().enumerate() {
